@@ -435,6 +435,19 @@ class CaseRun:
                     if not sealed:
                         line += " dcrc=%d" % (binascii.crc32(d) & 0xFFFFFFFF)
                     out.append(line)
+                    # a sender may encode later than it builds (TwistedServer.sendPackets hands the Packet objects to the reactor thread):
+                    # the previous packet object, encoded only now, must still give the bytes it gave right after it was built
+                    late = None
+                    prev = ep.get("last_pkt")
+                    if prev is not None and prev[2] == key:
+                        try:
+                            d_late = prev[0].to_bytes(key)
+                            if d_late != prev[1]:
+                                late = {"k": len(ep["emits"]) - 1, "nonce_then": prev[1][:12].hex(), "nonce_late": d_late[:12].hex(),
+                                        "same_nonce_as_this": d_late[:12] == d[:12], "same_bytes_as_this": d_late == d}
+                        except Exception as e:
+                            late = {"k": len(ep["emits"]) - 1, "err": type(e).__name__}
+                    ep["last_pkt"] = (pkt, d, key)
                     self.key_of[(w[1], len(ep["emits"]))] = key
                     ep.setdefault("plain", []).append(pkt.msg)
                     ep["emits"].append(d)
@@ -442,7 +455,7 @@ class CaseRun:
                         log.append({"op": "build", "e": w[1], "t": real.now, "pkt": {
                             "k": len(ep["emits"]) - 1, "ty": h.pkt_type.value, "seq": int(h.seq), "ack": int(h.ack),
                             "bits": h.ack_bits, "count": h.count, "dlen": len(d), "sealed": sealed, "nonce": d[:12].hex(),
-                            "key": key.hex() if key else None, "mtu": C.Packet.MTU, "aad_ok": aad_ok,
+                            "key": key.hex() if key else None, "mtu": C.Packet.MTU, "aad_ok": aad_ok, "late": late,
                             "msgs": [(int(m.seq), m.type.value, digest(m.payload)) for m in pkt.msgs],
                             "frags": {int(m.seq): struct.unpack(">HHH", m.payload[:6]) for m in pkt.msgs
                                       if m.type.value == 7 and len(m.payload) >= 6},
